@@ -43,9 +43,12 @@ Theorem C01_dest_required : forall F dest aos,
 Proof. exact dest_required. Qed.
 Print Assumptions C01_dest_required.
 
-(* root (with interval and on-ramp address) / on-ramp max / off-ramp next / RMN remote config:
+(* root (with interval and on-ramp address) / on-ramp max / RMN remote config:
    k |-> v is in the consensus  <=>  f_k is agreed and v is THE value with >= 2 f_k + 1 distinct reporters.
-   (=> "only if 2f+1 distinct oracles reported exactly that value"; <= "left out otherwise, and only then") *)
+   (=> "only if 2f+1 distinct oracles reported exactly that value"; <= "left out otherwise, and only then")
+   off-ramp next (destination data: by C01_designated only designated readers of the destination report it; as
+   repaired by fixes/F26.patch): k |-> v is in the consensus <=> v is THE value with >= 2 f_dest + 1 distinct
+   reporters — f of the chain the data is read from, for every source key k (also one whose own f is not agreed). *)
 Theorem C01_per_chain : forall retry roles known dest aos,
   valid_input retry roles known dest aos ->
   forall F c, get_consensus F dest aos = Ok c ->
@@ -55,7 +58,7 @@ Theorem C01_per_chain : forall retry roles known dest aos,
     (forall v, alookup k (c_onramp c) = Some v <->
        exists f, alookup k (c_fchain c) = Some f /\ agreed_value onramp_kv aos k (two_f_plus_1 f) v) /\
     (forall v, alookup k (c_offramp c) = Some v <->
-       exists f, alookup k (c_fchain c) = Some f /\ agreed_value offramp_kv aos k (two_f_plus_1 f) v) /\
+       exists fd, alookup dest (c_fchain c) = Some fd /\ agreed_value offramp_kv aos k (two_f_plus_1 fd) v) /\
     (forall v, alookup k (c_rmn c) = Some v <->
        exists f, alookup k (c_fchain c) = Some f /\ agreed_value (rmn_kv dest) aos k (two_f_plus_1 f) v).
 Proof. exact per_chain_iff. Qed.
@@ -109,12 +112,42 @@ Theorem C01_byzantine : forall retry roles known dest aos F c,
        honest_support (fun o => reported roots_kv aos o k v) B (Z.to_nat f + 1)) /\
     (forall v, alookup k (c_onramp c) = Some v ->
        honest_support (fun o => reported onramp_kv aos o k v) B (Z.to_nat f + 1)) /\
-    (forall v, alookup k (c_offramp c) = Some v ->
-       honest_support (fun o => reported offramp_kv aos o k v) B (Z.to_nat f + 1)) /\
     (forall v, alookup k (c_rmn c) = Some v ->
        honest_support (fun o => reported (rmn_kv dest) aos o k v) B (Z.to_nat f + 1)).
 Proof. exact byzantine. Qed.
 Print Assumptions C01_byzantine.
+
+(* off-ramp next numbers: no group B of at most f_dest oracles can add one, for any source key k *)
+Theorem C01_byzantine_offramp : forall retry roles known dest aos F c,
+  valid_input retry roles known dest aos ->
+  get_consensus F dest aos = Ok c ->
+  forall fd B,
+    alookup dest (c_fchain c) = Some fd -> (fd < 2^63)%Z -> NoDup B -> (length B <= Z.to_nat fd)%nat ->
+    forall k v, alookup k (c_offramp c) = Some v ->
+      honest_support (fun o => reported offramp_kv aos o k v) B (Z.to_nat fd + 1).
+Proof. exact byzantine_offramp. Qed.
+Print Assumptions C01_byzantine_offramp.
+
+(* F26: before the repair the off-ramp number of source chain k was agreed at 2*f_k+1. Witness (10 oracles, F = 3,
+   f_dest = 3, f_k = 1, B = {7,8,9}): (a) the three oracles of B alone get 999 agreed (the repaired function leaves
+   it out); (b) with 2*f_dest+1 oracles outside B reporting 10 and only B dissenting, nothing is agreed (the repaired
+   function agrees 10). The liveness face of the same defect (f_k > f_dest) is C04_liveness_unfixed_refuted. *)
+Theorem C01_offramp_key_f_unfixed_refuted :
+  exists F dest roles known k fd B aos_a aos_b,
+    NoDup B /\ (length B <= Z.to_nat fd)%nat /\
+    valid_input false roles known dest aos_a /\ valid_input false roles known dest aos_b /\
+    (exists c, get_consensus_unfixed F dest aos_a = Ok c /\ alookup dest (c_fchain c) = Some fd /\
+               alookup k (c_offramp c) = Some 999%N /\
+               forall o v, reported offramp_kv aos_a o k v -> In o B) /\
+    (exists c, get_consensus F dest aos_a = Ok c /\ alookup k (c_offramp c) = None) /\
+    (exists H, NoDup H /\ length H = Z.to_nat (2 * fd + 1) /\
+               forall o, In o H -> ~ In o B /\ reported offramp_kv aos_b o k 10%N) /\
+    (forall o v, reported offramp_kv aos_b o k v -> v <> 10%N -> In o B) /\
+    (exists c, get_consensus_unfixed F dest aos_b = Ok c /\ alookup dest (c_fchain c) = Some fd /\
+               alookup k (c_offramp c) = None) /\
+    (exists c, get_consensus F dest aos_b = Ok c /\ alookup k (c_offramp c) = Some 10%N).
+Proof. exact offramp_key_f_unfixed_refuted. Qed.
+Print Assumptions C01_offramp_key_f_unfixed_refuted.
 
 (* ... nor alter one: if all oracles outside B that report a root for k report h, the agreed root can only be h *)
 Theorem C01_byzantine_cannot_alter : forall retry roles known dest aos F c,
